@@ -6,15 +6,17 @@ open IRModel IRModel.Py IRModel.Encode IRModel.Proto IRModel.Props.EngineThm IRM
 
 /-! ### paths -/
 
-theorem condSafe_eval (F : FieldWidths) (env : Env) (h : GoodEnv F env) (le : Bool) :
-    ∀ c, condSafe F c = true → ∃ b, evalCond env le c = .ok b := by
+theorem lastOK_nil (env : Env) : LastOK [] env := by intro n w hw; simp at hw
+
+theorem condSafe_eval (F L : FieldWidths) (env : Env) (h : GoodEnv F env) (hl : LastOK L env) (le : Bool) :
+    ∀ c, condSafe F L c = true → ∃ b, evalCond env le c = .ok b := by
   intro c
   induction c with
   | cmp op a b =>
     intro hs
     simp only [condSafe, Bool.and_eq_true] at hs
-    obtain ⟨x, hx, _⟩ := safe_eval F env h a hs.1
-    obtain ⟨y, hy, _⟩ := safe_eval F env h b hs.2
+    obtain ⟨x, hx, _⟩ := safeL_eval F L env h hl a hs.1
+    obtain ⟨y, hy, _⟩ := safeL_eval F L env h hl b hs.2
     exact ⟨cmpVal op x.v y.v, by simp only [evalCond, hx, hy, bind, Except.bind, pure, Except.pure]⟩
   | lastEq => intro _; exact ⟨le, rfl⟩
   | not c ih =>
@@ -23,8 +25,8 @@ theorem condSafe_eval (F : FieldWidths) (env : Env) (h : GoodEnv F env) (le : Bo
     exact ⟨!b, by simp only [evalCond, hb, bind, Except.bind, pure, Except.pure]⟩
   | nbitsNe0 a => intro hs; simp [condSafe] at hs
 
-theorem runTree_path (F : FieldWidths) (env : Env) (h : GoodEnv F env) (le : Bool) :
-    ∀ tr, treeSafe F tr = true →
+theorem runTree_path (F L : FieldWidths) (env : Env) (h : GoodEnv F env) (hl : LastOK L env) (le : Bool) :
+    ∀ tr, treeSafe F L tr = true →
       ∃ p ∈ paths tr, (∀ cb ∈ p.1, evalCond env le cb.1 = .ok cb.2) ∧
         runTree env le tr = runTree env le (.leaf p.2.1 p.2.2) := by
   intro tr
@@ -33,7 +35,7 @@ theorem runTree_path (F : FieldWidths) (env : Env) (h : GoodEnv F env) (le : Boo
   | ite c t e iht ihe =>
     intro hs
     simp only [treeSafe, Bool.and_eq_true] at hs
-    obtain ⟨b, hb⟩ := condSafe_eval F env h le c hs.1.1
+    obtain ⟨b, hb⟩ := condSafe_eval F L env h hl le c hs.1.1
     cases b with
     | true =>
       obtain ⟨p, hp, hc, hr⟩ := iht hs.1.2
@@ -434,7 +436,7 @@ structure C05Spec (t : Tables) (w : Wrapper) (p : Packet) : Prop where
   fields : ∀ prm ∈ t.params, FieldOK p prm
   vonly  : ∀ prm ∈ t.params, ∀ k, p.kwargs.find? (fun k => k.1 == prm.1) = some k →
              valueOnly k.2.2 = true ∧ paramsCovered (widthsOf t) (rhoOf t) k.2.2 = true
-  safeT  : treeSafe (widthsOf t) w.treeNone = true
+  safeT  : treeSafe (widthsOf t) [] w.treeNone = true
   pathsOK : ∀ pth ∈ paths w.treeNone,
     match pth.2.2 with
     | .ret fs _ =>
@@ -505,7 +507,7 @@ theorem C05_wrapper_spec (t : Tables) (w : Wrapper) (tol : Match.Tol) (htol : to
     simpa [baseDecode] using hdec
   refine ⟨frame, hbuild, ?_⟩
   have hG := goodEnv_decoded t c V hcf' hS.names hfit (fun _ => 0) (fun _ => by omega)
-  obtain ⟨pth, hpm, hconds, hrun⟩ := runTree_path (widthsOf t) _ hG false w.treeNone hS.safeT
+  obtain ⟨pth, hpm, hconds, hrun⟩ := runTree_path (widthsOf t) [] _ hG (lastOK_nil _) false w.treeNone hS.safeT
   have hres := decodeW_fresh_result t w tol frame c hbase
   rw [hrun] at hres
   have hdp : (decodeP t w { last := none, tol := tol } frame).result = (decodeW t w { last := none, tol := tol } frame).result := by
